@@ -418,7 +418,7 @@ func main() {
 		txt := string(src)
 		dir := filepath.Dir(rel)
 		doSched := sched && schedDirs[dir] && !schedSkipFiles[rel]
-		interesting := strings.Contains(txt, "os.Exit") || strings.Contains(txt, "go ") || constOv[rel] != nil ||
+		interesting := (sched && rel == "pkg/lib/rand.go") || strings.Contains(txt, "os.Exit") || strings.Contains(txt, "go ") || constOv[rel] != nil ||
 			rel == "pkg/lib/file_readers.go" ||
 			(doSched && (strings.Contains(txt, "<-") || strings.Contains(txt, "chan ") || strings.Contains(txt, "select") || strings.Contains(txt, "sync.Mutex")))
 		if !interesting {
@@ -491,6 +491,33 @@ func main() {
 			}
 			if hooked < 2 {
 				fail("openhook: expected PathToHandle and os.Stdin in OpenStdin in %s (found %d seams)", rel, hooked)
+			}
+			r.changed = true
+		}
+		// shared-state pass: the process-wide RNG is drawn from several verb
+		// goroutines; make every draw a scheduling point that records the
+		// global draw order in the drawing goroutine's history.
+		if sched && rel == "pkg/lib/rand.go" {
+			n := 0
+			for _, d := range af.Decls {
+				fd, ok := d.(*ast.FuncDecl)
+				if !ok || fd.Body == nil || fd.Name.Name == "SeedRandom" {
+					continue
+				}
+				uses := false
+				ast.Inspect(fd.Body, func(x ast.Node) bool {
+					if id, ok := x.(*ast.Ident); ok && id.Name == "generator" {
+						uses = true
+					}
+					return true
+				})
+				if uses {
+					fd.Body.List = append([]ast.Stmt{&ast.ExprStmt{X: call("Shared", &ast.BasicLit{Kind: token.STRING, Value: `"rng"`})}}, fd.Body.List...)
+					n++
+				}
+			}
+			if n == 0 {
+				fail("shared pass: no RNG-drawing function found in %s", rel)
 			}
 			r.changed = true
 		}
